@@ -366,6 +366,13 @@ func ParseSliceHeader(nalu []byte, spsMap map[uint32]*SPS, ppsMap map[uint32]*PP
 		if sh.NumEntryPointOffsets > 0 {
 			// value shall be in the range of 0 to 31, inclusive
 			sh.OffsetLenMinus1 = uint8(r.ReadExpGolomb())
+			if sh.OffsetLenMinus1 > 31 {
+				return sh, fmt.Errorf("offset_len_minus1 %d exceeds 31", sh.OffsetLenMinus1)
+			}
+			// every entry point offset takes at least one bit of the NAL unit
+			if sh.NumEntryPointOffsets > 8*uint(len(nalu)) {
+				return sh, fmt.Errorf("num_entry_point_offsets %d exceeds the NAL unit size", sh.NumEntryPointOffsets)
+			}
 			if sh.NumEntryPointOffsets > 0 {
 				sh.EntryPointOffsetMinus1 = make([]uint32, sh.NumEntryPointOffsets)
 				for i := uint(0); i < sh.NumEntryPointOffsets; i++ {
@@ -376,7 +383,11 @@ func ParseSliceHeader(nalu []byte, spsMap map[uint32]*SPS, ppsMap map[uint32]*PP
 	}
 	if pps.SliceSegmentHeaderExtensionPresentFlag {
 		// value shall be in the range of 0 to 256, inclusive
-		sh.SegmentHeaderExtensionLength = uint16(r.ReadExpGolomb())
+		segmentHeaderExtensionLength := r.ReadExpGolomb()
+		if segmentHeaderExtensionLength > 256 {
+			return sh, fmt.Errorf("slice_segment_header_extension_length %d exceeds 256", segmentHeaderExtensionLength)
+		}
+		sh.SegmentHeaderExtensionLength = uint16(segmentHeaderExtensionLength)
 		if sh.SegmentHeaderExtensionLength > 0 {
 			sh.SegmentHeaderExtensionDataByte = make([]byte, sh.SegmentHeaderExtensionLength)
 			for i := uint16(0); i < sh.SegmentHeaderExtensionLength; i++ {
